@@ -94,8 +94,8 @@ package bkl
 //@ func merge(dst, src) (res, err)
 //@   propagates all   [C08]
 //@   consumes dst, src
-//@   ensures (= (isErr err) (mergeErr dst src))                                    [C01] [C06]
-//@   ensures (=> (not (isErr err)) (= res (mergeF dst src)))                       [C01] [C06]
+//@   ensures (= (isErr err) (mergeErr dst src))                                    [C01] [C06] [C15] [C16]
+//@   ensures (=> (not (isErr err)) (= res (mergeF dst src)))                       [C01] [C06] [C15] [C16]
 //@   decreases (+ (rank dst) (rank src)) 3
 //
 //@ func mergeMap(dst, src) (res, err)
